@@ -408,10 +408,10 @@ func runC09(t *testing.T, c explore.Case) (res explore.Result) {
 func init() { runners["C09"] = runC09 }
 
 func c09Tables(thorough bool) (ts []string) {
-	// all assignments of options to buckets with at most 2 (quick) / 3 (thorough) non-empty buckets
+	// all assignments of options to buckets with at most 2 (quick) / 4 (thorough) non-empty buckets
 	max := 2
 	if thorough {
-		max = 3
+		max = 4
 	}
 	var rec func(i int, parts []string)
 	rec = func(i int, parts []string) {
@@ -440,7 +440,7 @@ func c09Tables(thorough bool) (ts []string) {
 func TestC09(t *testing.T) {
 	w := explore.NewWorker("C09")
 	defer w.Finish()
-	w.SetRule("routing tables built through real traffic from recipes (per bucket in {0,1,2,5,159} one of 10 contents mixing good v4/v6, questionable, good-by-recent-query, never-responded and failed-ping entries; all assignments with at most 2 (quick) / 3 (thorough) non-empty buckets plus 6 large hand-shaped tables) x targets {own ID, an ID in buckets 0,1,2,3,5,158,159} x {find_node(target), get_peers(info_hash), get(target)} each with a decoy ID in the other field x want in {absent, n4, n6, both, xx} x source family; node lists parsed from raw bytes and compared with a set-level reference selection on the table snapshot")
+	w.SetRule("routing tables built through real traffic from recipes (per bucket in {0,1,2,5,159} one of 10 contents mixing good v4/v6, questionable, good-by-recent-query, never-responded and failed-ping entries; all assignments with at most 2 (quick) / 4 (thorough) non-empty buckets plus 6 large hand-shaped tables) x targets {own ID, an ID in buckets 0,1,2,3,5,158,159} x {find_node(target), get_peers(info_hash), get(target)} each with a decoy ID in the other field x want in {absent, n4, n6, both, xx} x source family; node lists parsed from raw bytes and compared with a set-level reference selection on the table snapshot")
 	tables := c09Tables(w.Thorough())
 	w.Bound("tables", len(tables))
 	idx := 0
